@@ -1,5 +1,6 @@
 import Q1t.Proofs.SimGate
 import Q1t.Proofs.SimGFExpect
+import Q1t.Proofs.Conditional
 /-!
 C01, step 2: the *ranges view* of the vector backend.
 
@@ -130,4 +131,130 @@ theorem applyGate_eq (hsem : GateSemOK α n valid) (hrun : GateRuns α n valid)
       show gateOn n g bits (List.map (fun row => row.getD k 0) (mkState n N rs).states) = _
       rw [hc]
 end gate
+
+/-! ### conditional gates -/
+
+theorem rleAux_replicate (b : Bool) : ∀ (m n : Nat),
+    Spec.Conditional.rleAux b n (List.replicate m b) = [(n + m, b)] := by
+  intro m
+  induction m with
+  | zero => intro n; simp [Spec.Conditional.rleAux]
+  | succ m ih =>
+    intro n
+    rw [List.replicate_succ, Spec.Conditional.rleAux]
+    simp only [bne_self_eq_false, Bool.false_eq_true, if_false]
+    rw [ih]; congr 2; omega
+
+theorem rle_replicate (b : Bool) (c : Nat) (hc : 0 < c) :
+    Spec.Conditional.rle (List.replicate c b) = [(c, b)] := by
+  obtain ⟨c', rfl⟩ : ∃ c', c = c' + 1 := ⟨c - 1, by omega⟩
+  rw [List.replicate_succ, Spec.Conditional.rle, rleAux_replicate]
+  congr 2; omega
+
+theorem ranges_homog (β : Rng α → Bool) : ∀ (rs : List (Rng α)) (icol : Nat), (∀ r ∈ rs, 0 < r.1) →
+    Spec.Conditional.ranges (rs.map (·.1)) icol (rs.flatMap fun r => List.replicate r.1 (β r)) =
+      (rs.zipIdx icol).map fun rk => (rk.2, rk.1.1, β rk.1) := by
+  intro rs
+  induction rs with
+  | nil => intro icol _; simp [Spec.Conditional.ranges]
+  | cons r rs ih =>
+    intro icol hpos
+    simp only [List.map_cons, List.flatMap_cons, Spec.Conditional.ranges, List.zipIdx_cons]
+    have h1 : (List.replicate r.1 (β r) ++ List.flatMap (fun r => List.replicate r.1 (β r)) rs).take r.1
+        = List.replicate r.1 (β r) := by
+      rw [List.take_append_of_le_length (by simp)]; simp
+    have h2 : (List.replicate r.1 (β r) ++ List.flatMap (fun r => List.replicate r.1 (β r)) rs).drop r.1
+        = List.flatMap (fun r => List.replicate r.1 (β r)) rs := by
+      rw [List.drop_append_of_le_length (by simp)]; simp
+    rw [h1, h2, rle_replicate _ _ (hpos r (by simp)), ih (icol + 1) (fun x hx => hpos x (by simp [hx]))]
+    rfl
+
+theorem mapM_eq_map {β γ : Type} (f : β → Option γ) (g : β → γ) :
+    ∀ l : List β, (∀ x ∈ l, f x = some (g x)) → l.mapM f = some (l.map g) := by
+  intro l
+  induction l with
+  | nil => intro _; rfl
+  | cons x xs ih =>
+    intro h
+    rw [List.mapM_cons, h x (by simp), ih (fun y hy => h y (by simp [hy]))]
+    rfl
+
+theorem zipIdx_map_eq {β γ : Type} (rs : List γ) (F : γ × Nat → β) (G : γ → β)
+    (h : ∀ k (hk : k < rs.length), F (rs[k], k) = G rs[k]) : rs.zipIdx.map F = rs.map G := by
+  apply List.ext_getElem
+  · simp
+  · intro k h1 h2
+    simp only [List.length_map, List.length_zipIdx] at h1
+    simp [h k h1]
+
+section cond
+variable [Zero α] [One α] [Add α] [Mul α] [Neg α] [Sub α] [Amp α P] [SimAmp α]
+variable {n N : Nat} {valid : GateTerm P → List Nat → Prop}
+
+theorem mkReg_map_length {β : Type} (rs : List (Rng α)) (f : Rng α → β) :
+    (rs.flatMap fun r => List.replicate r.1 (f r)).length = (rs.map (·.1)).sum := by
+  induction rs with
+  | nil => rfl
+  | cons r rs ih => simp [List.flatMap_cons, ih]
+
+/-- a conditional gate whose mask is constant on every range applies the gate to the ranges whose mask
+bit is set and leaves the range structure alone -/
+theorem applyConditional_eq (hsem : GateSemOK α n valid) (hrun : GateRuns α n valid)
+    {g : GateTerm P} {bits : List Nat} (hv : valid g bits) {rs : List (Rng α)} (h : Shape n N rs)
+    (β : Rng α → Bool) :
+    VecState.applyConditional (mkState n N rs) (rs.flatMap fun r => List.replicate r.1 (β r)) g bits =
+      .pure (mkState n N (rs.map fun r => mapCol (fun v => if β r then gateOn n g bits v else v) r)) := by
+  have hlen : (rs.flatMap fun r => List.replicate r.1 (β r)).length = N := by
+    rw [mkReg_map_length, h.sum]
+  unfold VecState.applyConditional
+  rw [if_neg (by simp only [mkState]; rw [hlen]; simp)]
+  rw [if_neg (by rw [hrun.arity g bits hv]; simp)]
+  have hcr : collectConditionalRanges (mkState n N rs).counts (rs.flatMap fun r => List.replicate r.1 (β r))
+      = some ((rs.zipIdx 0).map fun rk => (rk.2, rk.1.1, β rk.1)) := by
+    have := Q1t.Proofs.Conditional.sim_collectLoop_eq_spec
+      (rs.flatMap fun r => List.replicate r.1 (β r)) (rs.map (·.1)) 0 0
+      (by intro c hc; simp only [List.mem_map] at hc; obtain ⟨r, hr, rfl⟩ := hc; exact h.pos r hr)
+      (by rw [hlen, h.sum]; omega)
+    rw [List.drop_zero, ranges_homog β rs 0 h.pos] at this
+    exact this
+  simp only [hcr]
+  have hmap : ((rs.zipIdx 0).map fun rk => (rk.2, rk.1.1, β rk.1)).mapM (fun (x : Nat × Nat × Bool) =>
+        match x with
+        | (icol, _, apply) =>
+          let col := (mkState n N rs).column icol
+          if apply then Gate.applyGateSlice (α := α) .vec g bits (mkState n N rs).nrBits col else some col)
+      = some (((rs.zipIdx 0).map fun rk => (rk.2, rk.1.1, β rk.1)).map fun x =>
+          if x.2.2 then gateOn n g bits ((mkState n N rs).column x.1) else (mkState n N rs).column x.1) := by
+    apply mapM_eq_map
+    intro x hx
+    simp only [List.mem_map] at hx
+    obtain ⟨rk, hrk, rfl⟩ := hx
+    obtain ⟨hk1, hk2⟩ := List.mem_zipIdx hrk
+    simp only [Nat.zero_add] at hk2
+    have hk : rk.2 < rs.length := by omega
+    simp only
+    have hcol := column_mkState h rk.2 hk
+    have hlen2 : ((mkState n N rs).column rk.2).length = 2 ^ n := by
+      rw [hcol]; exact h.len _ (List.getElem_mem hk)
+    split
+    · rename_i hb
+      have hs := hrun.vec g bits hv _ hlen2
+      obtain ⟨v', hv'⟩ := Option.isSome_iff_exists.mp hs
+      have := hsem.vec g bits hv _ v' hlen2 hv'
+      show Gate.applyGateSlice (α := α) .vec g bits n _ = _
+      rw [hv', this]
+    · rfl
+  simp only [hmap]
+  congr 1
+  simp only [mkState, List.map_map]
+  congr 1
+  · apply zipIdx_map_eq
+    intro k hk; rfl
+  · congr 1
+    apply zipIdx_map_eq
+    intro k hk
+    have := column_mkState h k hk
+    simp only [mkState] at this
+    simp only [Function.comp, mapCol, this]
+end cond
 end Q1t.Sim.SimGF
